@@ -1,4 +1,58 @@
-"""C09 — not built yet."""
+"""C09 — schema evolution: unknown fields are tolerated, and preserved when asked (DESIGN.md §5.9)."""
+import json, os
+from vlib import core
+
+THEOREMS = ["Props.C09." + t for t in [
+    "old_reads_new", "new_reads_old",
+    "tables_match", "unknown_append_write", "append_agrees_with_skip", "depth_limit",
+    "ku_no_unknown_is_std", "ku_reads_like_std", "carrying_iff", "keep_roundtrip", "chain",
+    "union_unknown_member_not_rewritable"]]
+
 def run(ctx):
-    print("C09: no check built yet")
-    return 2
+    exe = ctx.go_build("c09")
+    ctx.trusted += ["translator harness/cmd/c09 extract (type codes, maxNestingDepth, keep_unknown_fields hooks of templates/struct.go)",
+                    "correspondence (a): generator/golang/extension/unknown of the tree under test driven in a scratch module from apache TBinaryProtocol vs tv_c09",
+                    "correspondence (b): old/new program pairs × {plain, keep_unknown_fields} compiled in one batch (harness/internal/batch), bytes moved along chains, vs tv_c09",
+                    "oracle: strict byte walker (a); harness/internal/refcodec under the NEW schema, projection, byte identity of unknown fields (b)"]
+    ctx.assumptions += ["apache/thrift v0.13.0 TBinaryProtocol over TMemoryBuffer as modelled in Gen.Unknown (reads incl. the 64-byte scratch buffer; every primitive exercised by tie (a))",
+                        "protocol Skip modelled as strict untyped decode to depth 64 (Gen.Std.skipW); tie (b) feeds well-formed bytes only",
+                        "Go reflect in the batch driver"]
+    ctx.partial += ["keep_roundtrip / chain / carrying_iff / ku_no_unknown_is_std are one-struct-level statements: fields added INSIDE nested structs are covered by correspondence (b) only",
+                    "keep_roundtrip excludes unions (kind ≠ 1): for a union the statement is false on model and code — union_unknown_member_not_rewritable is the witness"]
+    if exe:
+        rc, gen = core.sh([exe, "extract", "-repo", core.REPO])
+        ctx.obligation("translator:c09-extract", rc == 0, gen[-2000:] if rc else "")
+        if rc == 0:
+            ctx.write_generated("C09", gen)
+    built = ctx.lake_build(["ThriftVerif.Props.C09"], "lake-build:Props.C09")
+    drv = ctx.lake_build(["tv_c09"], "lake-build:tv_c09")
+    if built:
+        ctx.audit("C09", THEOREMS)
+        if ctx.tier == "thorough":
+            ctx.leanchecker(["ThriftVerif.Props.C09"])
+    if exe:
+        seed = ctx.seed
+        want_key = None
+        if ctx.replay:
+            doc = json.load(open(ctx.replay))
+            seed = doc.get("seed", seed)
+            want_key = doc.get("key")
+        rc, out = core.sh([exe, "run", "-repo", core.REPO, "-dir", ctx.work, "-seed", str(seed), "-tier", ctx.tier], timeout=3400)
+        if rc not in (0, 1) or not os.path.exists(os.path.join(ctx.work, "stats.json")):
+            raise core.MachineryError("c09 run failed: " + out[-3000:])
+        st = json.load(open(os.path.join(ctx.work, "stats.json")))
+        dist = st["distribution"]
+        ctx.cov.update(evaluations=st["evaluations"], distinct_nontrivial=st["distinct_nontrivial"], samples=st["samples"] or [],
+                       distribution=dist, programs=4 * dist.get("b.pair.usable", 0))
+        for f in (st.get("oracle_failures") or []):
+            if want_key and f["key"] != want_key:
+                continue
+            ctx.add_violation(f["key"], f["what"], f["input"], f["expected"], f["observed"])
+        if drv:
+            ops = os.path.join(ctx.work, "ops.txt")
+            model = ctx.run_model("tv_c09", ops)
+            ctx.diff_lines("c09:Gen.Unknown-vs-unknown-package-and-generated-code", ops, os.path.join(ctx.work, "impl.txt"), model)
+            if not ctx.cov.get("samples"):
+                ctx.cov["samples"] = [l[:400] for l in open(ops).read().split("\n") if l.startswith(("UA ", "H "))][:6]
+    return ctx.finish(rule="(a) one stream of field encodings per case (well-formed / deep / malformed by class), (b) one op per (pair, role, struct, value, hop); "
+                           "an op is non-trivial unless it is a schema line; distinct by sha256 of the op line")
